@@ -1,0 +1,27 @@
+//go:build verif
+
+// Contracts for package nfs, checked by /verif/govc (comment-only file).
+package nfs
+
+//@ specfunc bitset(b []byte, k uint64) = b[k/8] & (uint8(1) << (k%8)) != 0
+//@ specfunc dskbit(blk uint64, k uint64) = dsk[blk][k/8] & (uint8(1) << (k%8)) != 0
+
+// C15-G2/G3: markAlloc panics exactly on sizes that are not accepted, and for
+// every accepted size marks exactly the non-data blocks and inodes 0 and 1.
+//@ spec markAlloc
+//@   props C15
+//@   requires superInv(super) && n == super.DataStart() && m == super.MaxBnum() && super.Disk.tag != 0
+//@   requires [zerobitmaps] forall b uint64, i uint64 :: 513 <= b && b < 515 + dsksize/32768 && i < 4096 ==> dsk[b][i] == 0
+//@   panics_if !acceptedSize(dsksize)
+//@   ensures [G2-accepted] acceptedSize(dsksize) @C15
+//@   ensures [G3-first] forall k uint64 :: k < 32768 ==> (dskbit(513, k) <==> (k < n || (m/32768 == 0 && k >= m%32768))) @C15
+//@   ensures [G3-last] m/32768 > 0 ==> forall k uint64 :: k < 32768 ==> (dskbit(513 + m/32768, k) <==> k >= m%32768) @C15
+//@   ensures [G3-middle] forall j uint64, i uint64 :: 0 < j && j < m/32768 && i < 4096 ==> dsk[513 + j][i] == 0 @C15
+//@   ensures [G3-blockbitmap] forall j uint64, k uint64 :: j < super.NBlockBitmap && k < 32768 ==> (dskbit(513 + j, k) <==> (j*32768 + k < n || j*32768 + k >= m)) @C15 @C04
+//@   ensures [G3-inodebitmap] forall k uint64 :: k < 32768 ==> (dskbit(super.BitmapInodeStart(), k) <==> k < 2) @C15 @C04
+//@   ensures [G3-frame] forall b uint64 :: (b < 513 || b >= super.InodeStart()) ==> dsk[b] == old(dsk)[b] @C15 @C01
+//@   modifies dsk
+//@   loop 0 invariant bn <= n && len(blk) == 4096 && forall k uint64 :: k < 32768 ==> (bitset(blk, k) <==> k < bn)
+//@   loop 0 decreases n - bn
+//@   loop 1 invariant m%32768 <= bn && bn <= 32768 && len(blk1) == 4096 && forall k uint64 :: k < 32768 ==> (bitset(blk1, k) <==> ((m/32768 == 0 && k < n) || (m%32768 <= k && k < bn)))
+//@   loop 1 decreases 32768 - bn
